@@ -469,6 +469,7 @@ def main():
             'samples': samples,
             'solver_time_ms': solver_ms,
             'thorough': thorough,
+            'standin_selfcheck': (open(os.path.join(BUILD, 'standins_selfcheck.txt')).read().strip() if os.path.exists(os.path.join(BUILD, 'standins_selfcheck.txt')) else 'not run (setup.sh runs it)'),
             'extraction_rules': 'R1 log macros deleted; R2 format! in io::Error -> ""; R3 async/.await dropped; R4 &self->&mut self and Arc<dyn>/Atomic field stand-ins; R5 derives cut (R5b: Structural on field-less enums); R6 static->const; R7 use lines replaced; R9 cfg(test) dropped; R11 visibility widened to pub; see DESIGN §3',
         },
         'assumptions': pc.get('assumptions', []) + CONF.get('assumptions_common', []),
